@@ -87,7 +87,7 @@ def random_spec(rng, shapes=None, strategy=None, plugins=None):
     elif shape == 'strkey':
         spec = envs.shape_articles(opts, key='str', plugins=plugins)
     elif shape == 'aliased':
-        spec = envs.shape_articles(opts, aliased=True, exclude=rng.choice([[], ['secret']]), plugins=plugins)
+        spec = envs.shape_articles(opts, aliased=rng.choice([True, True, 'clash']), exclude=rng.choice([[], ['secret']]), plugins=plugins)
     elif shape == 'composite':
         spec = envs.shape_composite_t(opts, plugins=plugins)
     elif shape == 'joined':
@@ -375,3 +375,50 @@ def core_cancel_case(rng):
         prog += [['link', 'Tag', [2], 'articles', 'Article', [1]], ['unlink', 'Tag', [2], 'articles', 'Article', [1]]]
     prog += [['commit'], ['link', 'Article', [1], 'tags', 'Tag', [1]], ['commit']]
     return {'spec': spec, 'autoflush': False, 'program': prog, 'family': 'core_statement_and_cancelling_orm_changes'}
+
+
+def sp_then_touch_case(rng):
+    """entities versioned by a flush, then one or two savepoints rolled back (side by side or nested; empty, or with a
+    flush inside), flushes that touch OTHER entities, and at last the first entities are changed or deleted again in
+    the same transaction: every (entity, transaction) has one version row, whatever the unit of work still remembers"""
+    spec = envs.shape_articles({'strategy': rng.choice(['validity', 'subquery'])},
+                               plugins=rng.choice([[], [], ['mod_tracker'], ['tx_changes']]))
+    spec['shape'] = 'articles'
+    prog = [['add', 'Article', [1], {'name': 1}], ['add', 'Article', [2], {'name': 1}], ['add', 'Tag', [1], {'name': 1}],
+            ['add', 'Tag', [2], {'name': 1}], ['commit']]
+    if rng.random() < 0.3:
+        prog += [['set', 'Tag', [2], 'name', 5], ['commit']]
+    prog += [['set', 'Article', [1], 'name', 2]]
+    if rng.random() < 0.5:
+        prog += [['set', 'Tag', [1], 'name', 2]]
+    prog += [['flush']]
+
+    def body(n):
+        b = []
+        if rng.random() < 0.6:
+            b += [rng.choice([['set', 'Tag', [2], 'name', 10 + n], ['set', 'Article', [2], 'name', 10 + n],
+                              ['set', 'Article', [1], 'name', 10 + n], ['add', 'Tag', [5 + n], {'name': 1}]])]
+            if rng.random() < 0.7:
+                b += [['flush']]
+        return b
+    k = rng.random()
+    if k < 0.4:        # two savepoints side by side
+        prog += [['sp_begin']] + body(0) + [['sp_rollback']]
+        if rng.random() < 0.3:
+            prog += [['set', 'Article', [2], 'name', 3], ['flush']]
+        prog += [['sp_begin']] + body(1) + [rng.choice([['sp_rollback'], ['sp_rollback'], ['sp_commit']])]
+    elif k < 0.7:      # nested, inner first
+        prog += [['sp_begin']] + body(0) + [['sp_begin']] + body(1) + [rng.choice([['sp_rollback'], ['sp_commit']]), ['sp_rollback']]
+    else:              # one savepoint
+        prog += [['sp_begin']] + body(0) + [['sp_rollback']]
+    # flushes that do not touch the entities versioned first
+    for _ in range(rng.choice([0, 1, 1, 2])):
+        prog += [rng.choice([['set', 'Tag', [2], 'name', rng.randrange(20, 24)], ['set', 'Article', [2], 'name', rng.randrange(20, 24)],
+                             ['add', 'Tag', [9], {'name': 1}]]), ['flush']]
+        if prog[-2][0] == 'add':
+            break
+    prog += [rng.choice([['set', 'Article', [1], 'name', 4], ['del', 'Article', [1]], ['set', 'Article', [1], 'content', 1]])]
+    if rng.random() < 0.5:
+        prog += [['flush'], ['set', 'Tag', [1], 'name', 6]]
+    prog += [['commit'], ['set', 'Article', [2], 'name', 30], ['commit']]
+    return {'spec': spec, 'autoflush': False, 'program': prog, 'family': 'savepoints_then_touch_again'}
